@@ -199,7 +199,7 @@ CLAIMED["C20"] = dict(
 CLAIMED["C05"] = dict(
     level="model_checking",
     text="Enumerated Compiler programs: shape (straight line, diamonds, loops incl. values live only around the back edge and swaps at the back edge, jump tables, calls with 0..N arguments, "
-         "invoke inside loops, call-site marshalling of every narrower virtual register type into wider parameters, 16-argument functions with an aligned stack variable and a call) x shrunk register file K x pressure n x argument mode x value mode (gp64, gp32, mixed 64/32, xmm, ymm, zmm, k) x every entry of a 120-op alphabet in the slot (fixed/implicit registers, "
+         "invoke inside loops, call-site marshalling of every narrower virtual register type into wider parameters, 16-argument functions with an aligned stack variable and a call) x shrunk register file K x pressure n x argument mode x value mode (gp64, gp32, mixed 64/32, xmm, ymm, zmm, k) x every entry of a 162-op alphabet in the slot (fixed/implicit registers, 64-bit views of 32-bit values, "
          "RW/W zero-extending ops, 8-bit and high-byte ops, spill-prone memory forms, vector and mask groups, cmpxchg/mul/div/shift-by-CL); each program is interpreted by a "
          "reference interpreter over named values and compared with the register-allocated code - executed natively (x86-64, fixed input set: return value, memory buffer, "
          "external-call log) or interpreted by the msim machine simulator (x86-32, AArch64). Lists leg (harness/c05_lists.cpp): 37 register-list forms (AArch64 ld1-ld4/st1-st4/ldNr/lane forms, "
